@@ -14,10 +14,10 @@ PROVED = ['the log-linear interpolation behind every inserted node reproduces bo
           'the k-th of n equal subdivisions lies strictly inside its segment; 10**log10 d = d for d > 0',
           'the fractions of the discretised grading are strictly increasing for EVERY input (dict overwrite keeps keys pairwise distinct through all loops; sorted() of distinct keys is strictly increasing)',
           'for every well-formed input (given points strictly increasing in fraction and diameter, fractions in [0, B], the last given diameter not below the limit): every fraction lies in [0, max(B, 0.999)], i.e. inside [0,1) for B < 1',
-          'for B < 0.999 and no given diameter exactly on the limit: the diameters are strictly increasing along the fractions; no node lies below the limiting diameter; if the first remaining segment reaches the limit at a positive fraction X then (X, limit) is a node and no node lies left of it; every given point from the upper end of the first remaining segment onwards is a node, i.e. reproduced exactly (invariants carried through the skip, the segment loop, the subdivision loop and the extrapolated top node)',
+          'for B < 0.999 and no given diameter exactly on the limit: the diameters are strictly increasing along the fractions; no node lies below the limiting diameter; if the first remaining segment reaches the limit at a positive fraction X then (X, limit) is a node and no node lies left of it; the grading has AT LEAST THE REQUESTED NUMBER of nodes (any input length, any requested number >= 3: every inserted key is new and points_left x (between + 1) >= num_fracs - 1 with the rounded-up quotient); every given point from the upper end of the first remaining segment onwards is a node, i.e. reproduced exactly (invariants carried through the skip, the segment loop, the subdivision loop and the extrapolated top node)',
           'get_dx rejects every fraction outside (0,1), returns the tabulated diameter at a tabulated fraction, and is the C18 lookup on (fraction, log10 d) in between']
 HYPOTHESES = []
-MONITORED = ['global clauses on the whole output not yet proved (at least ten fractions; reproduction by interpolation of a given point that is not a node, i.e. the lower end of the first remaining segment) and, as a cross-check of the proved ones on doubles, ordering / range / start node - decided by the oracle on the implementation for every generated grading; '
+MONITORED = ['global clauses on the whole output not yet proved (reproduction by interpolation of a given point that is not a node, i.e. the lower end of the first remaining segment) and, as a cross-check of the proved ones on doubles, ordering / range / start node - decided by the oracle on the implementation for every generated grading; '
              'floating-point rounding of 10**log10']
 RULE = ('(Dp, fluid, rhos) in E x D15<D50<D85 with ratios in (1.02, 6] incl. the band D15 just above the limit and near-uniform gradings (ratios 1.02-1.05), '
         'D50 from just above the limit to 0.25 Dp, through Slurry and through raw create_fracs with 3- and 4-point inputs (extra point at 0 or 0.05, finer or coarser than the limit); '
@@ -38,7 +38,7 @@ def gen_case(rng):
     elif r < 0.3:
         p['r15'], p['r85'] = rng.uniform(1.021, 1.05), rng.uniform(1.021, 1.05)
     elif r < 0.4:
-        p['D50'] = dl * 1.0001
+        p['D50'] = dl * rng.choice([1.0001, 1.0, 1.0, 1.0 + 1e-12])     # also EXACTLY on the limit (a boundary point of the envelope)
     pts = {0.15: p['D50'] / p['r15'], 0.5: p['D50'], 0.85: p['D50'] * p['r85']}
     kind = '3pt'
     r = rng.random()
